@@ -32,6 +32,8 @@ def replay(case):
 
 
 def build_case(data, mode):
+    if mode == 'long':
+        return gen_sent.t_long_case(Tape(data))
     case = _build_case(data, mode)
     # validity / score accounting do not depend on completeness of the search: bound the n-best search,
     # which otherwise explores every derivation when fewer than nbest parses exist
@@ -49,9 +51,10 @@ def _build_case(data, mode):
 
 def _shard(ctx, shard, nshards):
     native.setup()
-    for mode, n_examples, size in (('table', ctx.scale(1000, 20000), 700), ('real', ctx.scale(80, 1500), 700)):
+    for mode, n_examples, size in (('table', ctx.scale(1000, 20000), 700), ('real', ctx.scale(80, 1500), 700),
+                                  ('long', ctx.scale(3, 30), 400)):
         def factory(mode=mode, n_examples=n_examples, size=size):
-            @seed(runner.hseed(ctx, 9 if mode == 'table' else 109))
+            @seed(runner.hseed(ctx, {'table': 9, 'real': 109, 'long': 209}[mode]))
             @runner.hsettings(n_examples)
             @given(tapes(size))
             def test(data):
